@@ -712,6 +712,7 @@ int main(int argc, char **argv)
         struct ecase c; gen_case(&c, i);
         char cls[96]; snprintf(cls, sizeof cls, "%s:%s:%s", va.prop, vtp_name[c.tp], c.blocking_scenario ? "blocking" : "reactor");
         vfork_case(i, one_case, NULL, 120, cls);
+        if (vstop_early()) break;
     }
     vsummary(true);
     return 0;
